@@ -48,7 +48,7 @@ func CollectRaces() []RaceReport {
 			for _, l := range strings.Split(block, "\n") {
 				l = strings.TrimSpace(l)
 				if strings.HasPrefix(l, "github.com/semafind/semadb/") && !strings.Contains(l, "zzverif") {
-					if i := strings.Index(l, "("); i > 0 {
+					if i := strings.LastIndex(l, "("); i > 0 {
 						l = l[:i]
 					}
 					l = strings.TrimPrefix(l, "github.com/semafind/semadb/")
